@@ -57,6 +57,8 @@ def run_shard(desc, acc, tier):
         check_cfg(k, tier, acc)
         if k % 2 == 0 or "|" in cfgs(tier)[k][0]:
             check_cfg(k, tier, acc, via_json=True)      # the same configurator after a JSON round trip (every defaulted one, every second other one)
+        if "|" in cfgs(tier)[k][0] and k % 2 == 1:
+            check_cfg(k, tier, acc, via_b64=True)       # its polyhedron after a base64 round trip (every second defaulted one)
         d = cfg_digest(k, tier)
         if d is not None:
             first[k] = d
@@ -119,9 +121,9 @@ def lex_key(x, ids, prio, tags):
     return tuple(key)
 
 
-def check_cfg(k, tier, acc, only=None, via_json=False):
+def check_cfg(k, tier, acc, only=None, via_json=False, via_b64=False):
     name, ast = cfgs(tier)[k]
-    case0 = {"tier": tier, "k": k, "cfg": name, "via_json": via_json}
+    case0 = {"tier": tier, "k": k, "cfg": name, "via_json": via_json, "via_b64": via_b64}
     clear_caches()
     try:
         cfg, _ = bind(ast)
@@ -135,6 +137,11 @@ def check_cfg(k, tier, acc, only=None, via_json=False):
             return
         dp = dict(cfg.default_prios)
         P = cfg.ge_polyhedron
+        sel = cfg
+        if via_b64:
+            # the configurator's polyhedron after a base64 round trip: select() on the unpacked object must hand out the same ranking
+            P = pnd.ge_polyhedron_config.from_b64(P.to_b64())
+            sel = P
     except BaseException as e:
         acc.violation(None, case0, {"what": "construction / ge_polyhedron raised", "exc": repr(e)})
         return
@@ -175,7 +182,7 @@ def check_cfg(k, tier, acc, only=None, via_json=False):
     prios = cfgspace.prio_dicts()
     cap = cfgspace.Capture("exact")
     try:
-        sols = list(cfg.select(*[dict(p) for p in prios], solver=cap))
+        sols = list(sel.select(*[dict(p) for p in prios], solver=cap))
     except BaseException as e:
         acc.violation(None, case0, {"what": "select raised", "exc": repr(e)})
         return
@@ -194,7 +201,7 @@ def check_cfg(k, tier, acc, only=None, via_json=False):
         cap1 = cfgspace.Capture("exact")
         try:
             batch = [dict(prios[pi])] * (2 if not prios[pi] else 1)
-            s1 = list(cfg.select(*batch, solver=cap1))
+            s1 = list(sel.select(*batch, solver=cap1))
         except BaseException as e:
             acc.violation(None, dict(case0, pi=pi, single=True), {"what": "select raised on a single dictionary", "exc": repr(e), "prios": prios[pi]})
             continue
@@ -257,4 +264,4 @@ def replay(case, acc):
     if case.get("reverse"):
         run_shard((case["lo"], case["hi"]), acc, case["tier"])
         return
-    check_cfg(case["k"], case["tier"], acc, only=case.get("pi"), via_json=bool(case.get("via_json")))
+    check_cfg(case["k"], case["tier"], acc, only=case.get("pi"), via_json=bool(case.get("via_json")), via_b64=bool(case.get("via_b64")))
